@@ -602,6 +602,11 @@ func (c *Conn) Break(graceful bool) {
 	if graceful {
 		c.eofAtEnd = true
 		c.wErr = &net.OpError{Op: "write", Net: "sim", Err: syscall.EPIPE}
+		if w.PipeLike {
+			// net.Pipe: a Write after the remote end closed fails with
+			// io.ErrClosedPipe, the same error a local Close causes
+			c.wErr = io.ErrClosedPipe
+		}
 		w.log(Event{Kind: EvConnBreak, Conn: c.N, Str: "EOF"})
 	} else {
 		c.in = nil
